@@ -62,6 +62,10 @@ def expr(t, env):
     raise Unsupported(f"term {k}")
 
 
+def _conds(c):
+    return " && ".join((f"cble({_scalar(a)}, {_scalar(b)})" if k == "cble" else f"!cble({_scalar(a)}, {_scalar(b)})") for k, a, b in c[1])
+
+
 def items(lst, env):
     parts = [item(it, env) for it in lst]
     if not parts:
@@ -77,6 +81,11 @@ def item(it, env):
         return expr(it[1], env)
     if it[0] == "For":
         seq, ty = _source(it[2])
+        body = it[3]
+        if body and body[0][0] == "Break" and not any(x[0] in ("Break", "SkipRest") for x in body[1:]):
+            return f"union_over_prefix({seq}, |{it[1]}: {ty}| {_conds(body[0][1])}, |{it[1]}: {ty}| {items(body[1:], env)})"
+        if any(x[0] in ("Break", "SkipRest") for x in body):
+            raise Unsupported("early exit from a loop anywhere but at the top of its body")
         return f"union_over({seq}, |{it[1]}: {ty}| {items(it[3], env)})"
     if it[0] == "If":
         c = it[1]
@@ -90,7 +99,7 @@ def item(it, env):
                 return items(it[2], env)
             raise Unsupported("non-emptiness guard around something other than one Concat/Merge")
         if c[0] == "and":
-            conds = " && ".join(f"cble({_scalar(a)}, {_scalar(b)})" for _, a, b in c[1])
+            conds = _conds(c)
             return f"(if {conds} {{ {items(it[2], env)} }} else {{ ISet::<Entry>::empty() }})"
         raise Unsupported(f"condition {c}")
     raise Unsupported(f"item {it}")
@@ -164,6 +173,22 @@ class Gen:
         pad = "    " * ind
         if it[0] == "Elem":
             return self.node(it[1], env, ind)
+        if it[0] == "For" and any(x[0] in ("Break", "SkipRest") for x in it[3]):
+            # an early exit from the loop over the files: the script has no argument for leaving the remaining files out;
+            # the obligation is stated bare (Verus will reject it unless it is trivially true) and the witness search decides
+            seq, ty = _source(it[2])
+            var = it[1]
+            rest = [x for x in it[3] if x[0] not in ("Break", "SkipRest")]
+            self.loopvars.append(var)
+            cb, ub0, _sb = self.items(rest, env, ind + 1)
+            self.loopvars.pop()
+            self.n += 1
+            cf = f"comp_{self.n}"
+            self.lets.append(f"    let {cf} = |{var}: {ty}| {cb};\n")
+            c = f"union_over({seq}, {cf})"
+            u = item(it, env)
+            self.obls.append(f"early exit from the loop over {seq} leaves out no file that can hold an in-range key")
+            return c, u, f"{pad}assert({self.g(c, u)}); // early exit from the loop: nothing justifies skipping the remaining files\n"
         if it[0] == "For":
             seq, ty = _source(it[2])
             var = it[1]
@@ -201,7 +226,7 @@ class Gen:
                 raise Unsupported("non-emptiness guard around something other than one Concat/Merge")
             if c[0] == "and":
                 cb, ub, sb = self.items(it[2], env, ind)
-                conds = " && ".join(f"cble({_scalar(a)}, {_scalar(b)})" for _, a, b in c[1])
+                conds = _conds(c)
                 uu = f"(if {conds} {{ {ub} }} else {{ ISet::<Entry>::empty() }})"
                 # the file the condition talks about
                 owners = {_var(x[2][1]) for _, a, b in c[1] for x in (a, b) if x[0] == "bound"}
